@@ -235,6 +235,68 @@ def cold_start_probe():
     print(json.dumps({"ok": n_ok, "bad": bad[:40], "n_bad": len(bad)}))
 
 
+def cold_start_probe_args():
+    """Subprocess entry (fresh interpreter): the FIRST use of every (position, width) in the process is a call whose position or width is a
+    number of another type that compares equal to the integer (float, Fraction, Decimal, bool for 0/1) - rejected or not, it is not judged;
+    the read with the plain integers that follows must be correct."""
+    import json
+    from decimal import Decimal
+    from fractions import Fraction
+    from space_packet_parser.packets import RawPacketData as RPD
+    bad = []
+    n_ok = 0
+    buf = bytes((i * 89 + 0x35) & 0xFF for i in range(12))
+    bits = _bits(buf)
+    conv = (float, Fraction, Decimal, lambda x: bool(x) if x in (0, 1) else float(x))
+    i = 0
+    for kind in ("int", "bytes"):
+        for p in range(0, 40):
+            for n in range(0, 41):
+                i += 1
+                c = conv[i % 4]
+                for pa, na in ((c(p), n), (p, c(n)), (c(p), c(n))):
+                    q = RPD(buf)
+                    try:
+                        q.pos = pa
+                        q.read_as_int(na) if kind == "int" else q.read_as_bytes(na)
+                    except Exception:  # noqa: BLE001
+                        pass
+                r = RPD(buf)
+                r.pos = p
+                try:
+                    got = r.read_as_int(n) if kind == "int" else r.read_as_bytes(n)
+                except Exception as e:  # noqa: BLE001
+                    got = f"raised:{type(e).__name__}"
+                want_int = int(bits[p:p + n] or "0", 2)
+                want = want_int if kind == "int" else want_int.to_bytes((n + 7) // 8, "big")
+                if got != want or type(got) is not type(want) or r.pos != p + n or type(r.pos) is not int:
+                    bad.append({"read": kind, "pos": p, "nbits": n, "got": got.hex() if isinstance(got, bytes) else got, "first_use_with": c(3).__class__.__name__})
+                else:
+                    n_ok += 1
+    print(json.dumps({"ok": n_ok, "bad": bad[:40], "n_bad": len(bad)}))
+
+
+def _cold_start_args(t: Tally):
+    import json
+    import os
+    import subprocess
+    import sys
+    from mc import VERIF_ROOT
+    p = subprocess.run([sys.executable, "-c", "from mc.checks.c03 import cold_start_probe_args; cold_start_probe_args()"], cwd=VERIF_ROOT,
+                       env=dict(os.environ, PYTHONDONTWRITEBYTECODE="1"), capture_output=True, text=True, timeout=600)
+    if p.returncode != 0:
+        t.violation({"kind": "cold-start-probe-failed"}, {"cold_start_args": True}, observed=p.stderr[-400:])
+        return
+    res = json.loads(p.stdout.strip().splitlines()[-1])
+    t.evals += res["ok"] + res["n_bad"]
+    t.traces += 1
+    t.outcomes["cold-start-args"] += res["ok"]
+    for b in res["bad"][:10]:
+        t.violation({"kind": "read-after-call-with-equal-number-of-another-type", "read": b["read"]},
+                    {"cold_start_args": True, "buf": bytes((i * 89 + 0x35) & 0xFF for i in range(12)).hex(), **b},
+                    note="in a fresh interpreter, an integer read that follows a call with an equal float / Fraction / Decimal / bool position or width is wrong")
+
+
 def _cold_start(t: Tally):
     import json
     import os
@@ -281,6 +343,7 @@ def run(ctx):
         htasks += [{"lengths": [3], "firsts": [f], "depth": 4} for f in range(len(_ops_for(24)))]
     tally.merge(fan_out(_task_histories, htasks, jobs=ctx.jobs, seed=ctx.seed))
     _cold_start(tally)
+    _cold_start_args(tally)
     coverage = {
         "programs": len(bufs),
         "exhaustive": True,
@@ -290,7 +353,7 @@ def run(ctx):
                   "walking-1/walking-0 over every bit for lengths 3..%d; (c) aligned and unaligned reads on 64, 4096, 65542-byte buffers; "
                   f"(d) histories on ONE object: every sequence of {depth} reads over an alphabet of (position, width, kind) with the cursor set freely before each read, "
                   f"buffers of {'3, 8, 16' if ctx.quick else '3, 6, 8, 16, 32 bytes, and every sequence of 4 reads on 3'} bytes, cached header properties touched at varying points; "
-                  "(e) in a fresh interpreter: for every shape (pos mod 8 in 0..7, width 1..72, 80, 96, 127, 128) a failing over-read first, then in-range reads of that shape" % (4 if ctx.quick else 6)),
+                  "(e) in a fresh interpreter: for every shape (pos mod 8 in 0..7, width 1..72, 80, 96, 127, 128) a failing over-read first, then in-range reads of that shape; (f) in a fresh interpreter: every (position 0..39, width 0..40) first used with an equal float / Fraction / Decimal / bool position and/or width (not judged), then with the integers" % (4 if ctx.quick else 6)),
         "rule": ("one evaluation = one read (int or bytes) of one (buffer, p, n); distinct non-trivial = distinct small buffers fully "
                  "swept plus distinct (length, p, n) windows swept over the content family"),
     }
@@ -303,9 +366,9 @@ def replay(case):
     if isinstance(case["buf"], dict):
         return None
     buf = bytes.fromhex(case["buf"])
-    if case.get("cold_start"):
+    if case.get("cold_start") or case.get("cold_start_args"):
         t = Tally()
-        _cold_start(t)
+        (_cold_start if case.get("cold_start") else _cold_start_args)(t)
         return next((v for v in t.violations if v["case"].get("pos") == case.get("pos") and v["case"].get("nbits") == case.get("nbits")
                      and v["case"].get("read") == case.get("read")), None)
     if "history" in case:
